@@ -454,7 +454,7 @@ def report(prop: str, tier: str, seed: int, mod: Any, obs: list[Ob], results: di
         "wall_s": round(wall, 2),
         "violations": len(violations),
     }
-    EVIDENCE_DIR.mkdir(exist_ok=True)
+    EVIDENCE_DIR.mkdir(parents=True, exist_ok=True)
     (EVIDENCE_DIR / f"{prop}.json").write_text(json.dumps(ev, indent=1, ensure_ascii=False) + "\n", encoding="utf-8")
 
     print(
